@@ -8,7 +8,7 @@
      - [QEops] : closed expressions over exact rationals with symbolic ln/exp
                  (vm_compute-able; used by the float-level correspondence)
    Exceptions are values of [res]. *)
-From Coq Require Import ZArith QArith Qabs String List Bool.
+From Coq Require Import ZArith QArith Qabs Qminmax String List Bool.
 Import ListNotations.
 
 Inductive exn : Set :=
@@ -24,6 +24,8 @@ Definition bind {A B} (m : res A) (f : A -> res B) : res B :=
   match m with Ok a => f a | Raise e => Raise e end.
 Notation "x <- m ;; k" := (bind m (fun x => k))
   (at level 61, m at next level, right associativity).
+Notation "' p <- m ;; k" := (bind m (fun p => k))
+  (at level 61, p pattern, m at next level, right associativity).
 
 Definition exn_eqb (a b : exn) : bool :=
   match a, b with
@@ -226,10 +228,51 @@ Definition qe_sub a b := match a, b with QC x, QC y => QC (Qred (x - y)) | _, _ 
 Definition qe_mul a b := match a, b with QC x, QC y => QC (Qred (x * y)) | _, _ => QMul a b end.
 Definition qe_div a b := match a, b with QC x, QC y => QC (Qred (x / y)) | _, _ => QDiv a b end.
 Definition qe_opp a := match a with QC x => QC (Qred (- x)) | _ => QOpp a end.
-(* comparisons are only meaningful on constants; the correspondence never
-   relies on a comparison of a non-constant (it would show up as a mismatch) *)
-Definition qe_ltb a b := match a, b with QC x, QC y => match Qcompare x y with Lt => true | _ => false end | _, _ => false end.
-Definition qe_leb a b := match a, b with QC x, QC y => match Qcompare x y with Gt => false | _ => true end | _, _ => false end.
+(* Comparisons.  On constants they are exact.  On expressions containing exp
+   they answer `true` only when elementary rational bounds prove the inequality
+   (0 < exp x, 1 + x <= exp x, exp x <= 1/(1-x) for x < 1); an undecided
+   comparison answers `false`, which the correspondence would expose as a
+   mismatch with the implementation (it never silently agrees). *)
+Fixpoint qe_lo (e : qe) : option Q :=
+  match e with
+  | QC q => Some q
+  | QExp (QC x) => Some (Qmax 0 (1 + x))
+  | QExp _ => Some 0
+  | QOpp a => option_map Qopp (qe_hi a)
+  | QAdd a b => match qe_lo a, qe_lo b with Some x, Some y => Some (x + y) | _, _ => None end
+  | QSub a b => match qe_lo a, qe_hi b with Some x, Some y => Some (x - y) | _, _ => None end
+  | _ => None
+  end
+with qe_hi (e : qe) : option Q :=
+  match e with
+  | QC q => Some q
+  | QExp (QC x) => match Qcompare x 1 with Lt => Some (1 / (1 - x)) | _ => None end
+  | QOpp a => option_map Qopp (qe_lo a)
+  | QAdd a b => match qe_hi a, qe_hi b with Some x, Some y => Some (x + y) | _, _ => None end
+  | QSub a b => match qe_hi a, qe_lo b with Some x, Some y => Some (x - y) | _, _ => None end
+  | _ => None
+  end.
+(* 0 < exp x strictly: a lower bound 0 of an exp-expression is never attained *)
+Definition qe_lo_strict (e : qe) : bool := match e with QExp _ => true | _ => false end.
+Definition qe_hi_strict (e : qe) : bool := match e with QOpp (QExp _) => true | _ => false end.
+
+Definition qe_ltb a b :=
+  match a, b with
+  | QC x, QC y => match Qcompare x y with Lt => true | _ => false end
+  | _, _ => match qe_hi a, qe_lo b with
+            | Some h, Some l => match Qcompare h l with
+                                | Lt => true
+                                | Eq => qe_hi_strict a || qe_lo_strict b
+                                | Gt => false end
+            | _, _ => false end
+  end.
+Definition qe_leb a b :=
+  match a, b with
+  | QC x, QC y => match Qcompare x y with Gt => false | _ => true end
+  | _, _ => match qe_hi a, qe_lo b with
+            | Some h, Some l => match Qcompare h l with Gt => false | _ => true end
+            | _, _ => false end
+  end.
 Definition qe_eqb a b := match a, b with QC x, QC y => Qeq_bool x y | _, _ => false end.
 Definition qe_ln a := match a with QC x => if Qeq_bool x 1 then QC 0 else QLn a | _ => QLn a end.
 Definition qe_exp a := match a with QC x => if Qeq_bool x 0 then QC 1 else QExp a | _ => QExp a end.
@@ -275,3 +318,33 @@ Definition res_str_eqb (a b : res string) : bool :=
   | Raise e, Raise e' => exn_eqb e e'
   | _, _ => false
   end.
+
+(* ------------------------------------------------------------------------ *)
+(* Flat serialisation of results of the QE instance (read back by the harness,
+   which evaluates ln/exp numerically):  prefix code over Z. *)
+Fixpoint qe_ser (e : qe) : list Z :=
+  match e with
+  | QC q => [0%Z; Qnum q; Zpos (Qden q)]
+  | QLn a => 1%Z :: qe_ser a
+  | QExp a => 2%Z :: qe_ser a
+  | QAdd a b => 3%Z :: qe_ser a ++ qe_ser b
+  | QSub a b => 4%Z :: qe_ser a ++ qe_ser b
+  | QMul a b => 5%Z :: qe_ser a ++ qe_ser b
+  | QDiv a b => 6%Z :: qe_ser a ++ qe_ser b
+  | QOpp a => 7%Z :: qe_ser a
+  end.
+
+Definition exn_code (e : exn) : Z :=
+  match e with
+  | InvalidValue => 20 | OperationNotSupported => 21 | NotImplementedError => 22
+  | ValueError => 23 | ZeroDivisionError => 24 | TypeError => 25
+  end%Z.
+
+Definition fl_ser (x : qfl) : list Z :=
+  match x with
+  | FFin e => 10%Z :: qe_ser e
+  | FNInf => [11%Z] | FPInf => [12%Z] | FNaN => [13%Z]
+  end.
+
+Definition res_ser (r : res qfl) : list Z :=
+  match r with Ok x => fl_ser x | Raise e => [exn_code e] end.
